@@ -4,74 +4,101 @@ import (
 	"strings"
 )
 
-// pruneQuery drops, from an SMT-LIB query, every top-level universally quantified assertion that can never be
-// instantiated: all of its patterns mention a function symbol that occurs nowhere else in the query (neither in the
-// ground part nor in an assertion that is kept). Dropping assumptions is always sound; what it buys is smaller and
-// far more stable queries (the text of a query no longer depends on axioms about functions it never mentions).
+const preludeEndMarker = "; --- end of prelude ---"
+
+// pruneQuery drops, from the prelude part of an SMT-LIB query (vocabulary axioms, literal facts, global axioms),
+// what can never take part in a proof of this query: a quantified assertion none of whose patterns can ever match
+// (some function symbol of every pattern occurs nowhere in the rest of the query, transitively through the assertions
+// that are kept), and a ground fact about a string literal that the rest of the query never mentions. Dropping
+// assumptions is always sound; what it buys is smaller and far more stable queries: the text of a query no longer
+// depends on axioms about functions it never mentions.
 func pruneQuery(q string) string {
-	lines := strings.Split(q, "\n")
-	type ax struct {
+	cut := strings.Index(q, preludeEndMarker)
+	if cut < 0 {
+		return q
+	}
+	pre := strings.Split(q[:cut], "\n")
+	core := q[cut:]
+	occ := map[string]bool{}
+	for _, t := range tokenizeSyms(core) {
+		occ[t] = true
+	}
+	type cand struct {
 		idx   int
-		pats  [][]string // alternatives; each a list of head symbols
-		syms  map[string]bool
+		alts  [][]string // alternatives: all symbols of one (multi-)pattern; nil for literal facts
+		lits  []string   // literal facts: the literals mentioned
+		syms  []string
 		alive bool
 	}
-	var axs []*ax
-	occ := map[string]bool{}
-	addSyms := func(s string, into map[string]bool) {
-		for _, t := range tokenizeSyms(s) {
-			into[t] = true
-		}
-	}
-	for i, ln := range lines {
-		if strings.HasPrefix(ln, "(assert (forall ") && strings.Contains(ln, ":pattern") {
-			a := &ax{idx: i, syms: map[string]bool{}}
-			a.pats = patternHeads(ln)
-			if len(a.pats) == 0 {
-				addSyms(ln, occ)
+	var cands []*cand
+	for i, ln := range pre {
+		switch {
+		case strings.HasPrefix(ln, "(assert (forall ") && strings.Contains(ln, ":pattern"):
+			alts := patternSyms(ln)
+			if alts == nil {
+				for _, t := range tokenizeSyms(ln) {
+					occ[t] = true
+				}
 				continue
 			}
-			addSyms(ln, a.syms)
-			axs = append(axs, a)
-			continue
-		}
-		if strings.HasPrefix(ln, "(declare-") || strings.HasPrefix(ln, "(define-") || strings.HasPrefix(ln, "(set-") || strings.HasPrefix(ln, ";") {
-			if strings.HasPrefix(ln, "(define-") {
-				addSyms(ln, occ)
+			cands = append(cands, &cand{idx: i, alts: alts, syms: tokenizeSyms(ln)})
+		case strings.HasPrefix(ln, "(assert (= (slen lit!") || strings.HasPrefix(ln, "(assert (= (runeStr ") || strings.HasPrefix(ln, "(assert (= (byteStr ") || strings.HasPrefix(ln, "(assert (= (sconcat lit!"):
+			var lits []string
+			toks := tokenizeSyms(ln)
+			for _, t := range toks {
+				if strings.HasPrefix(t, "lit!") {
+					lits = append(lits, t)
+				}
 			}
-			continue
+			cands = append(cands, &cand{idx: i, lits: lits, syms: toks})
+		case strings.HasPrefix(ln, "(assert (distinct"):
+			// kept, but it does not make its literals "mentioned"
+		case strings.HasPrefix(ln, "(assert "), strings.HasPrefix(ln, "(define-"):
+			for _, t := range tokenizeSyms(ln) {
+				occ[t] = true
+			}
 		}
-		addSyms(ln, occ)
 	}
 	for changed := true; changed; {
 		changed = false
-		for _, a := range axs {
+		for _, a := range cands {
 			if a.alive {
 				continue
 			}
-			for _, alt := range a.pats {
+			if a.alts == nil {
 				ok := true
-				for _, h := range alt {
-					if !occ[h] {
+				for _, l := range a.lits {
+					if !occ[l] {
 						ok = false
 						break
 					}
 				}
-				if ok {
-					a.alive = true
-					break
+				a.alive = ok
+			} else {
+				for _, alt := range a.alts {
+					ok := true
+					for _, h := range alt {
+						if !occ[h] {
+							ok = false
+							break
+						}
+					}
+					if ok {
+						a.alive = true
+						break
+					}
 				}
 			}
 			if a.alive {
 				changed = true
-				for s := range a.syms {
+				for _, s := range a.syms {
 					occ[s] = true
 				}
 			}
 		}
 	}
 	drop := map[int]bool{}
-	for _, a := range axs {
+	for _, a := range cands {
 		if !a.alive {
 			drop[a.idx] = true
 		}
@@ -80,15 +107,16 @@ func pruneQuery(q string) string {
 		return q
 	}
 	var sb strings.Builder
-	for i, ln := range lines {
+	for i, ln := range pre {
 		if drop[i] {
 			continue
 		}
 		sb.WriteString(ln)
-		if i < len(lines)-1 {
+		if i < len(pre)-1 {
 			sb.WriteString("\n")
 		}
 	}
+	sb.WriteString(core)
 	return sb.String()
 }
 
@@ -103,7 +131,7 @@ func tokenizeSyms(s string) []string {
 	}
 	for _, r := range s {
 		switch r {
-		case '(', ')', ' ', '\t':
+		case '(', ')', ' ', '\t', '\n':
 			flush()
 		default:
 			cur.WriteRune(r)
@@ -113,26 +141,51 @@ func tokenizeSyms(s string) []string {
 	return out
 }
 
-// patternHeads returns, for each ":pattern (t1 t2 ...)" of the outermost quantifier of an assertion line, the head
-// symbols of the terms (an alternative); nil when the line cannot be analysed (it is then kept).
-func patternHeads(ln string) [][]string {
-	// only the outermost quantifier matters: its patterns are the last ones before the closing of "(! ... )"
-	// nested quantifiers have their own patterns; being conservative, collect all patterns and require, for
-	// liveness, one alternative among those of the outermost quantifier. The outermost "(!" is the first one.
-	start := strings.Index(ln, "(! ")
+// builtin symbols of SMT-LIB that say nothing about relevance
+var smtBuiltin = map[string]bool{"select": true, "store": true, "+": true, "-": true, "*": true, "=": true, "<": true, "<=": true, ">": true, ">=": true,
+	"and": true, "or": true, "not": true, "=>": true, "ite": true, "div": true, "mod": true, "true": true, "false": true, "as": true, "const": true}
+
+// patternSyms returns, for each ":pattern (t1 t2 ...)" of the outermost quantifier of an assertion line, the function
+// symbols of its terms (bound variables, numerals and SMT-LIB builtins left out); nil when the line cannot be
+// analysed (it is then kept).
+func patternSyms(ln string) [][]string {
+	// bound variables of the outermost quantifier
+	bstart := strings.Index(ln, "(forall (")
+	if bstart < 0 {
+		return nil
+	}
+	bound := map[string]bool{}
+	i := bstart + len("(forall (")
+	depth := 1
+	for i < len(ln) && depth > 0 {
+		if ln[i] == '(' {
+			depth++
+			if depth == 2 {
+				j := i + 1
+				for j < len(ln) && ln[j] != ' ' && ln[j] != ')' {
+					j++
+				}
+				bound[ln[i+1:j]] = true
+			}
+		} else if ln[i] == ')' {
+			depth--
+		}
+		i++
+	}
+	start := strings.Index(ln[i:], "(! ")
 	if start < 0 {
 		return nil
 	}
-	// find matching paren of this "(!"
-	depth := 0
+	start += i
+	depth = 0
 	end := -1
-	for i := start; i < len(ln); i++ {
-		if ln[i] == '(' {
+	for k := start; k < len(ln); k++ {
+		if ln[k] == '(' {
 			depth++
-		} else if ln[i] == ')' {
+		} else if ln[k] == ')' {
 			depth--
 			if depth == 0 {
-				end = i
+				end = k
 				break
 			}
 		}
@@ -141,51 +194,39 @@ func patternHeads(ln string) [][]string {
 		return nil
 	}
 	body := ln[start:end]
-	// patterns of the outermost annotation are at depth 1 within body
 	var alts [][]string
 	depth = 0
-	for i := 0; i < len(body); i++ {
-		if body[i] == '(' {
+	for k := 0; k < len(body); k++ {
+		if body[k] == '(' {
 			depth++
-		} else if body[i] == ')' {
+		} else if body[k] == ')' {
 			depth--
-		} else if depth == 1 && strings.HasPrefix(body[i:], ":pattern (") {
-			// parse the list
-			j := i + len(":pattern ")
+		} else if depth == 1 && strings.HasPrefix(body[k:], ":pattern (") {
+			j := k + len(":pattern ")
 			d := 0
-			k := j
-			for ; k < len(body); k++ {
-				if body[k] == '(' {
+			m := j
+			for ; m < len(body); m++ {
+				if body[m] == '(' {
 					d++
-				} else if body[k] == ')' {
+				} else if body[m] == ')' {
 					d--
 					if d == 0 {
 						break
 					}
 				}
 			}
-			list := body[j+1 : k]
-			var heads []string
-			d = 0
-			for x := 0; x < len(list); x++ {
-				if list[x] == '(' {
-					if d == 0 {
-						y := x + 1
-						for y < len(list) && list[y] != ' ' && list[y] != ')' {
-							y++
-						}
-						heads = append(heads, list[x+1:y])
-					}
-					d++
-				} else if list[x] == ')' {
-					d--
+			var syms []string
+			for _, t := range tokenizeSyms(body[j : m+1]) {
+				if bound[t] || smtBuiltin[t] || (t[0] >= '0' && t[0] <= '9') {
+					continue
 				}
+				syms = append(syms, t)
 			}
-			if len(heads) == 0 {
-				return nil
+			if len(syms) == 0 {
+				return nil // a pattern over builtins only: always potentially matching
 			}
-			alts = append(alts, heads)
-			i = k
+			alts = append(alts, syms)
+			k = m
 		}
 	}
 	return alts
